@@ -11,7 +11,7 @@ ID = "C14"
 SUB = "c14"
 LEVEL = "proof"
 RESILIENT = True
-MODELLED = ["time", "aead", "vcommit", "write", "account", "file", "record", "cproof", "cstate", "comparison"]
+MODELLED = ["time", "aead", "vcommit", "write", "account", "file", "record", "cproof", "cstate", "comparison", "tagset"]
 RULE = ("structure-aware Rust generators (every variant, empty/boundary sizes, non-ASCII strings, boundary "
         "timestamps) produce values of each type; a case is the encoding of one value; non-trivial = modelled type "
         "and encoding longer than 2 bytes; distinct by (type, bytes)")
@@ -70,11 +70,15 @@ def oracle(case, obs):
     fails = []
     res = [o for o in obs if not o.startswith("!")]
     if rtflag != "1":
-        fails.append({"oracle": "roundtrip_value", "type": ty, "detail": "decode(encode v) != v for %s %s" % (ty, b[:80])})
+        fails.append({"oracle": "roundtrip_value", "type": ty, "detail": ("the encoded tag field depends on the order the set was filled in: %s %s" if ty == "tagset" else "decode(encode v) != v for %s %s") % (ty, b[:80])})
     if not res:
         fails.append({"oracle": "no_result", "type": ty, "detail": "no observation"})
         return fails
     r = res[0]
+    if ty == "tagset":
+        # B is the set of tags in a generated order, the observation the tag field of the real encoding: compared
+        # with the model's canonical encoding by the correspondence; rt says it does not depend on the insertion order
+        return fails
     if r != "ok " + b:
         fails.append({"oracle": "reencode_identity", "type": ty, "got": r.split()[0],
                       "detail": "decode+encode of a valid %s encoding gave %s" % (ty, r[:100])})
